@@ -702,61 +702,6 @@ func sigDeleteLookup(c fw.Case, out []string, msg string) bool {
 	return strings.HasPrefix(msg, "refusal: accepted although not-a-model-path: delete")
 }
 
-// sigLimitDistinct: the limit counts the entries of the per-target update map, and the request's
-// operations collapse to fewer entries than it has operations (a repeated update path, or a JSON
-// member landing on the path of another update).
-func sigLimitDistinct(c fw.Case, out []string, msg string) bool {
-	if !strings.HasPrefix(msg, "refusal: accepted although limit-operations") {
-		return false
-	}
-	for i, ln := range c.Script {
-		toks := strings.Fields(ln)
-		if len(toks) == 0 || toks[0] != "nb.set" || i >= len(out) {
-			continue
-		}
-		rq, ok := nbwire.DecReq(toks[1:])
-		if !ok {
-			continue
-		}
-		ans := parseAns(out[i])
-		if ans.accepted && len(ans.pairs) < len(opsOf(rq)) {
-			return true
-		}
-	}
-	return false
-}
-
-// sigAncestorKey: a key leaf equal to a same-named key of an ancestor list.
-func sigAncestorKey(c fw.Case, out []string, msg string) bool {
-	if !strings.HasPrefix(msg, "refusal: accepted although key-contradiction") {
-		return false
-	}
-	return setAt(c, func(spec nbenv.Spec, rq *nbwire.Req) bool {
-		for _, u := range append(append([]nbwire.Update{}, rq.Update...), rq.Replace...) {
-			es := append(append([]*pb.PathElem{}, elemsOf(rq.Prefix)...), elemsOf(u.Path)...)
-			if len(es) < 3 {
-				continue
-			}
-			leaf := es[len(es)-1].Name
-			vs, ok := valString(u.Val)
-			if !ok {
-				continue
-			}
-			for _, anc := range es[:len(es)-2] {
-				if v, has := anc.Key[leaf]; has && v == vs {
-					return true
-				}
-			}
-		}
-		return false
-	})
-}
-
-// sigErrorAfterLog: the response could not be built (a path of the logged change does not parse back).
-func sigErrorAfterLog(c fw.Case, out []string, msg string) bool {
-	return strings.HasPrefix(msg, "answer: the Set was answered with an error although its transaction was logged")
-}
-
 // ---------------------------------------------------------------------------------------------
 
 func shrinkCase(c fw.Case) []fw.Case {
@@ -833,9 +778,6 @@ var Prop = &fw.Prop{
 	Sigs: map[string]func(fw.Case, []string, string) bool{
 		"jsonPrefixOnly": sigJSONPrefixOnly,
 		"deleteLookup":   sigDeleteLookup,
-		"limitDistinct":  sigLimitDistinct,
-		"ancestorKey":    sigAncestorKey,
-		"errorAfterLog":  sigErrorAfterLog,
 	},
 }
 
